@@ -58,6 +58,7 @@ func checkC12(ctx *Ctx, r *Report) {
 	c12UnionWrapperClassified(ctx, r)
 	c12NoSiblingsOfRef(ctx, r, p)
 	c12FourthRound(ctx, r, p)
+	c12FifthRound(ctx, r, p)
 	c12ConstructorCollections(ctx, r)
 	c12NumericKeywordsRead(ctx, r)
 	c12CollectionDefaultsRead(ctx, r)
@@ -1647,4 +1648,203 @@ func c12GoRequiredUnionInitialised(ctx *Ctx, r *Report) {
 	r.Count("constructors of union wrappers in struct defaults", 1)
 	r.Check(handled, "skeleton/go-required-union-initialised", "golang.RawTypes.defaultsForStructRec initialises required unions", fd.Pos(), "a required field typed by a union wrapper is given a value with one branch set",
 		"defaultsForStructRec only selects a branch of a union wrapper for a default found in the enclosing struct's default: a required `other: string | bool` is initialised with *NewStringOrBool() — no branch set — and json.Marshal(NewRoot()) is {\"other\":null}, which the emitted schema (anyOf[string, boolean], required) rejects")
+}
+
+// c12FifthRound — fourth hunt:
+//   - the items of a list, the values of a map and the branches of a union carry a default of their own in the IR (the
+//     front-ends read it): formatArray / formatMap / formatDisjunction format them through a function that writes it;
+//   - what CUE itself defines (`time.Duration`, `net.IP`) is no object an input can provide: the CUE front-end does not
+//     hand it to externalReferenceFunc — the reference would never resolve in the emitted documents;
+//   - the keys of components.schemas are restricted by OpenAPI (`^[a-zA-Z0-9._-]+$`), those of `definitions` are not: the
+//     OpenAPI jenny tests the names it takes from the JSON Schema jenny and fails on the others.
+func c12FifthRound(ctx *Ctx, r *Report, p *packages.Package) {
+	info := p.TypesInfo
+	n := 0
+	// (a)
+	writesDefault := func(fn *types.Func) bool {
+		fd, _ := ctx.DeclOf(fn)
+		if fd == nil || fd.Body == nil {
+			return false
+		}
+		params := map[types.Object]bool{}
+		for _, f := range fd.Type.Params.List {
+			for _, nm := range f.Names {
+				params[info.Defs[nm]] = true
+			}
+		}
+		found := false
+		ast.Inspect(fd.Body, func(m ast.Node) bool {
+			c, ok := m.(*ast.CallExpr)
+			if !ok || len(c.Args) != 2 {
+				return true
+			}
+			if f := callee(info, c); f == nil || f.Name() != "Set" {
+				return true
+			}
+			if tv, ok := info.Types[c.Args[0]]; !ok || tv.Value == nil || tv.Value.Kind() != constant.String || constant.StringVal(tv.Value) != "default" {
+				return true
+			}
+			if sel, ok := ast.Unparen(c.Args[1]).(*ast.SelectorExpr); ok && sel.Sel.Name == "Default" {
+				if id, ok := ast.Unparen(sel.X).(*ast.Ident); ok && params[objOf(info, id)] {
+					found = true
+				}
+			}
+			return true
+		})
+		return found
+	}
+	for _, spec := range []struct{ method, position, example string }{
+		{"formatArray", "ValueType", "`tags: [...(string | *\"x\")]` is emitted with \"items\": {\"type\": \"string\"}"},
+		{"formatMap", "ValueType", "`limits: [string]: int | *3` is emitted with \"additionalProperties\": {\"type\": \"integer\"}"},
+		{"formatDisjunction", "Branches", "`anyOf: [{type: string, default: auto}, {type: integer}]` is emitted without the default of its first branch"},
+	} {
+		fd := c12Method(p, spec.method)
+		if fd == nil {
+			r.Undecided("anchor lost: jsonschema.Schema." + spec.method)
+			continue
+		}
+		var formatter *types.Func
+		ast.Inspect(fd.Body, func(m ast.Node) bool {
+			c, ok := m.(*ast.CallExpr)
+			if !ok {
+				return true
+			}
+			for i, a := range c.Args {
+				sel, ok := ast.Unparen(a).(*ast.SelectorExpr)
+				if !ok || sel.Sel.Name != spec.position {
+					continue
+				}
+				if f := callee(info, c); f != nil && funcIs(f, toolsPkgPath, "Map") && i == 0 && len(c.Args) == 2 {
+					// tools.Map(branches, jenny.<formatter>)
+					if fs, ok := ast.Unparen(c.Args[1]).(*ast.SelectorExpr); ok {
+						formatter, _ = info.Uses[fs.Sel].(*types.Func)
+					}
+				} else if f != nil && f.Pkg() == p.Types {
+					formatter = f
+				}
+			}
+			return true
+		})
+		if formatter == nil {
+			r.Undecided("anchor changed: jsonschema.Schema." + spec.method + " hands its " + spec.position + " to no function of the jenny")
+			continue
+		}
+		n++
+		r.Check(writesDefault(formatter), "skeleton/element-defaults-emitted", "jsonschema."+spec.method+" formats "+spec.position, fd.Pos(), "through "+formatter.Name()+", which writes the default the type carries",
+			"jsonschema."+spec.method+" formats its "+spec.position+" through "+formatter.Name()+", which never looks at the default of the type it is given — only struct fields and objects get one: "+spec.example+", and the document fed back into cog gives an IR without that default")
+	}
+	// (b)
+	if fp := ctx.Pkg("internal/simplecue"); fp == nil {
+		r.Undecided("anchor lost: internal/simplecue")
+	} else if fd := c12Method(fp, "declareReference"); fd == nil {
+		r.Undecided("anchor lost: simplecue.generator.declareReference")
+	} else {
+		finfo := fp.TypesInfo
+		parents := parentMap(fd)
+		calls := 0
+		ast.Inspect(fd.Body, func(m ast.Node) bool {
+			c, ok := m.(*ast.CallExpr)
+			if !ok {
+				return true
+			}
+			sel, ok := ast.Unparen(c.Fun).(*ast.SelectorExpr)
+			if !ok || sel.Sel.Name != "externalReferenceFunc" {
+				return true
+			}
+			calls++
+			// an earlier statement of an enclosing block returns under a test on the origin of the referred value
+			// (a method of cue.Value telling where it comes from: Pos, Source, BuildInstance)
+			guarded := false
+			var node ast.Node = c
+			for node != nil && !guarded {
+				parent := parents[node]
+				if blk, ok := parent.(*ast.BlockStmt); ok {
+					for _, st := range blk.List {
+						if st.End() > node.Pos() {
+							break
+						}
+						ifs, ok := st.(*ast.IfStmt)
+						if !ok {
+							continue
+						}
+						asksOrigin := false
+						for _, part := range []ast.Node{ifs.Init, ifs.Cond} {
+							if part == nil {
+								continue
+							}
+							ast.Inspect(part, func(k ast.Node) bool {
+								if kc, ok := k.(*ast.CallExpr); ok {
+									if f := callee(finfo, kc); f != nil && f.Pkg() != nil && f.Pkg().Path() == "cuelang.org/go/cue" {
+										switch f.Name() {
+										case "Pos", "Source", "BuildInstance":
+											asksOrigin = true
+										}
+									}
+								}
+								return true
+							})
+						}
+						returns := false
+						ast.Inspect(ifs.Body, func(k ast.Node) bool {
+							if _, ok := k.(*ast.ReturnStmt); ok {
+								returns = true
+							}
+							return true
+						})
+						if asksOrigin && returns {
+							guarded = true
+						}
+					}
+				}
+				node = parent
+			}
+			n++
+			r.Check(guarded, "frontier/cue-builtin-definitions-described", "simplecue.declareReference hands a foreign reference to externalReferenceFunc", c.Pos(), "after a test on where the referred value is defined (what CUE itself defines returns earlier)",
+				"every reference into another CUE package becomes a reference to an object of that package — `time.Duration`, `net.IP` included, which no input can provide: the emitted documents hold \"$ref\": \"#/definitions/Duration\" with no such definition, and every loader rejects them")
+			return true
+		})
+		if calls == 0 {
+			r.Undecided("anchor changed: simplecue.declareReference no longer calls externalReferenceFunc")
+		}
+	}
+	// (c)
+	if op := ctx.Pkg("internal/jennies/openapi"); op == nil {
+		r.Undecided("anchor lost: internal/jennies/openapi")
+	} else if fd := c12Method(op, "generateSchema"); fd == nil {
+		r.Undecided("anchor lost: openapi.Schema.generateSchema")
+	} else {
+		oinfo := op.TypesInfo
+		matches := false
+		var matchPos token.Pos
+		ast.Inspect(fd.Body, func(m ast.Node) bool {
+			c, ok := m.(*ast.CallExpr)
+			if !ok {
+				return true
+			}
+			if f := callee(oinfo, c); f != nil && f.Pkg() != nil && f.Pkg().Path() == "regexp" && strings.HasPrefix(f.Name(), "Match") {
+				matches = true
+				matchPos = c.Pos()
+			}
+			return true
+		})
+		// an error exit after the test
+		fails := false
+		ast.Inspect(fd.Body, func(m ast.Node) bool {
+			rs, ok := m.(*ast.ReturnStmt)
+			if !ok || len(rs.Results) != 2 || rs.Pos() < matchPos {
+				return true
+			}
+			if c, ok := ast.Unparen(rs.Results[1]).(*ast.CallExpr); ok {
+				if f := callee(oinfo, c); f != nil && f.Pkg() != nil && (f.Pkg().Path() == "fmt" || f.Pkg().Path() == "errors") {
+					fails = true
+				}
+			}
+			return true
+		})
+		n++
+		r.Check(matches && fails, "keywords/openapi-component-keys-checked", "openapi.Schema.generateSchema names the components", fd.Pos(), "the names taken from the JSON Schema jenny are matched against a pattern, and the run fails on a mismatch",
+			"components.schemas receives the `definitions` of the JSON Schema jenny as they are: an object called `My Type` or `Page«Item»` (legal in JSON Schema) gives a document OpenAPI validators — cog's own OpenAPI input included — reject: identifier \"My Type\" is not supported by OpenAPIv3 standard")
+	}
+	r.Count("hunted clauses of the emitted documents (5th round)", n)
+	r.Floor("hunted clauses of the emitted documents (5th round)", 5)
 }
